@@ -30,6 +30,8 @@ func init() {
 	register("C07", &core.Rule{ID: "C07.5", Title: "RelatedDataFrom rejects unknown and duplicated payloads", Mod: core.ModRoot, Floor: 6, Run: c07_5})
 	register("C07", &core.Rule{ID: "C07.7", Title: "possibly-absent field ids are guarded before indexing", Mod: core.ModRoot, Floor: 30, Run: c07_7, Canary: c07_7Canary})
 	register("C03", &core.Rule{ID: "C03.7", Title: "absent-column tolerant decoding: possibly-absent field ids are guarded before indexing", Mod: core.ModRoot, Floor: 30, Run: c07_7, Canary: c07_7Canary})
+	register("C01", &core.Rule{ID: "C01.7", Title: "absent-column tolerant decoding: possibly-absent field ids are guarded before indexing", Mod: core.ModRoot, Floor: 10, Run: c07_7, Canary: c07_7Canary})
+	register("C02", &core.Rule{ID: "C02.7", Title: "absent-column tolerant decoding: possibly-absent field ids are guarded before indexing", Mod: core.ModRoot, Floor: 10, Run: c07_7, Canary: c07_7Canary})
 }
 
 const c07_1Canary = `package c
